@@ -13,6 +13,13 @@ a file is identified by its resolved path, however the literal was spelled.
 
 `RootOK fs root rootFile` (the resolver does not know the root's path, or maps it to the root document) is the only
 side condition; both resolvers of the code base satisfy it.
+
+Instances and compositions proved elsewhere (`Props/C12Composed.lean`, `Props/C19Composed.lean`):
+`C13_with_paths` / `C13_respelled` / `C13_literal_of_relative_path` — `res` := the C20 model of `resolve_relative_path`
+(files identified by normalised resolved path, respelled literals identified, literals written by `relative_path` land
+on the intended file); `C12_from_files*` — the result document feeds the runtime-document printer;
+`C19_emit_is_printer` — the resolver inside the loader's `emit_js`, on exactly the files a task holds (`resolve` reads
+its file map only through lookups and is independent of the recursion budget: `Lemmas/LoaderComposedFuel.lean`).
 -/
 namespace NitroVerif.Imports
 open NitroVerif.Imports.Spec
